@@ -55,11 +55,13 @@ type Knobs struct {
 	PDup               float64
 	PSlice             float64
 	PInitLookup        float64
+	PProcComp          float64
+	PZero              float64
 }
 
 func wireKnobs(r rng) Knobs {
 	k := Knobs{MinTypes: 2, MaxTypes: 5, MaxInstPerType: 3, MaxPoints: 3, PSatisfiable: 0.92,
-		PLazy: 0.2, PInit: 0.5, PEmbed: 0.2, PByName: 0.25, PFunc: 0.12, POptional: 0.25, PQual: 0.3, PPrimary: 0.2, PDup: 0.01, PSlice: 0.35, PInitLookup: 0.12}
+		PLazy: 0.2, PInit: 0.5, PEmbed: 0.2, PByName: 0.25, PFunc: 0.12, POptional: 0.25, PQual: 0.3, PPrimary: 0.2, PDup: 0.01, PSlice: 0.35, PInitLookup: 0.12, PProcComp: 0.15, PZero: 0.12}
 	// swarm: per program, switch some features off or up
 	if r.p(0.3) {
 		k.PLazy = 0
@@ -138,6 +140,7 @@ func substKnobs(r rng) Knobs {
 	k.PLazy = 0.1
 	k.PInitLookup = 0.3
 	k.PInit = 0.8
+	k.PProcComp, k.PZero = 0, 0
 	return k
 }
 
@@ -149,6 +152,7 @@ func lifeKnobs(r rng) Knobs {
 	if k.PLazy == 0 && r.p(0.5) {
 		k.PLazy = 0.3
 	}
+	k.PProcComp, k.PZero = 0, 0
 	return k
 }
 
@@ -211,8 +215,38 @@ func genGraph(r rng, seed uint64, id, family string, k Knobs) *sdl.Program {
 			b.Alias = a.Alias
 		}
 	}
+	// a share of the programs has components that are themselves observing post-processors
+	// (created while the processor list is being built) ...
+	if r.p(k.PProcComp) {
+		for n := 0; n < r.n(1, 2); n++ {
+			t := pick(r, p.Types)
+			t.Proc = true
+			if r.p(0.4) {
+				t.Lazy = true
+			}
+		}
+	}
+	// ... or field-less (zero-size) providers, which may share one address
+	if r.p(k.PZero) {
+		nz := r.n(2, 3)
+		for z := 0; z < nz; z++ {
+			t := &sdl.Type{Name: fmt.Sprintf("%sZ%d", id, z), Zero: true, Ifaces: []int{r.IntN(p.NIfaces)}}
+			if r.p(0.5) {
+				t.Funcs = []string{pick(r, funcVals)}
+			}
+			if z > 0 && r.p(0.7) {
+				t.Ifaces = p.Types[len(p.Types)-1].Ifaces
+			}
+			p.Types = append(p.Types, t)
+			p.Instances = append(p.Instances, &sdl.Instance{ID: fmt.Sprintf("c%d", ni), Type: t.Name})
+			ni++
+		}
+	}
 	// points
 	for _, t := range p.Types {
+		if t.Zero {
+			continue
+		}
 		np := r.n(0, k.MaxPoints)
 		for j := 0; j < np; j++ {
 			pt := genPoint(r, p, t, k, fmt.Sprintf("F%d", j))
